@@ -12,6 +12,10 @@ object must answer like a freshly constructed geometry with the current settings
 cuqi.geometry / Samples / CUQIarray objects through every emitted case.  Batches and sample sets have 1, 2 and 3 columns
 (Widths): the specification emits par2fun of every column, the shapes of a sample set of Ns samples in its three forms and Ns
 (SamplesShape: per-sample shape, then Ns - the sample axis is never dropped, also for ONE sample; deviation batchfast).
+Constructor options are a dimension of the configuration space (constants StepOpts, KLDecay2, KLNorms, Forms): every
+documented option value of every geometry is a maps configuration and goes through every invariant and every replayed facet;
+fun2par of a matrix of stacked functions is column-wise (ColumnwiseF2P; deviation batchreduce); the table option value x
+facet is part of the evidence (observation option_value_x_facet) and guarded (_vacuity_options).
 """
 META = {
     "claimed": True,
@@ -27,10 +31,20 @@ META = {
              "of <=3 conversions (FlagsLegal, Lossless) and behaviours of <=3/4 uses and public reassignments (grid, "
              "variables; also of the geometry inside a wrapper) on one object (SeqFresh: the object answers like a fresh "
              "geometry with the current settings); sample sets hold 1, 2 and 3 samples and the array shape is part of the "
-             "state (SamplesShape: per-sample shape, then Ns); eleven named deviations must each violate their invariant. The "
+             "state (SamplesShape: per-sample shape, then Ns); constructor options are constants TLC enumerates - StepExpansion "
+             "fun2par_projection mean / max / min in several letter cases, KLExpansion decay_rate (1, 2, omitted = 2.5, 3) x "
+             "normalizer (1, 3, 12) x num_modes, the forms of the grid argument (int, tuple, list, array; Continuous2D ints / "
+             "arrays / mixed), Discrete variables as int / names, Image2D order C / F / omitted and visual_only, default 2D "
+             "visual_only, MappedGeometry map stacks and imap given / None, the bare _WrappedGeometry - each value a configuration "
+             "that passes every invariant; ColumnwiseF2P: fun2par of a matrix of stacked functions outside the range of par2fun "
+             "(pairwise different columns, step extrema in different columns) is the projection of each column; twelve named "
+             "deviations (incl. batchreduce: a step's node values reduced over all columns at once) must each violate their invariant. The "
              "harness applies the real maps to basis vectors, ramps and batches of width 1, 2 and 3, reads the step "
              "partition through fun2par, converts sample sets of 1, 2 and 3 samples on every configuration (shape, Ns, flags, "
-             "content, round trips), replays every conversion behaviour comparing flags, array shape, Ns and content after "
+             "content, round trips; also sets of FUNCTION samples outside the range through parameters / funvals), applies "
+             "fun2par to the stacked functions as a matrix of 1, 2, 3 columns and column by column for every projection "
+             "option, records which option value was replayed with which facet (guarded: every documented value x every "
+             "facet), replays every conversion behaviour comparing flags, array shape, Ns and content after "
              "every action, and replays every use / reassign behaviour on one real object comparing after every action."),
     "note": ("Bounded sizes; KLExpansion is specified abstractly in the sine basis written in its docstring (decay 2, "
              "normalizer 12; compared to 1e-10), KLExpansion_Full / CustomKL / FEniCS geometries are not modelled. "
@@ -44,7 +58,9 @@ META = {
              "conversions must keep it). A grid node that "
              "coincides with an interior step boundary may be assigned to either neighbouring step (observation) as long "
              "as the steps still partition the grid; step grids are built with np.linspace from correctly rounded "
-             "end points."),
+             "end points. Letter-case insensitivity of fun2par_projection is taken from tests/test_geometry.py ('MiN'); "
+             "KL decay rates are multiples of 1/2, normalizers integers; the default normalizer (docstring 1.0, signature "
+             "12.0) and fun2par of a MappedGeometry without imap are observations."),
     "technique": "TLA+ spec (Geometry) model-checked with TLC; TLC-emitted index maps, partitions and conversion "
                  "behaviours replayed into cuqi.geometry, cuqi.samples.Samples and cuqi.array.CUQIarray",
 }
@@ -1479,6 +1495,15 @@ def run(ctx, only=None, only_seq=None):
         mc = maps[pick]
         ctx.sample({"maps": {k: mc[k] for k in ("c", "par_shape", "fun_shape", "funvec_shape", "index", "stepof", "boundary", "g0", "f0", "p2f",
                                                 "f2p", "f2p_mean", "bshape")}})
+    for pick in [k for k in ks if k.startswith("step/") and k.endswith("n=5/s=2/proj=MiN")][:1]:
+        mc = maps[pick]
+        ctx.sample({"maps (constructor option)": {k: mc[k] for k in ("c", "stepof", "fb", "fb2p", "f2p")}})
+    if only is None and only_seq is None:
+        try:        # documented twice: docstring 1.0, signature 12.0 - not asserted
+            import cuqi
+            ctx.observe("KLExpansion_default_normalizer", float(cuqi.geometry.KLExpansion(np.linspace(0, 1, 4)).normalizer))
+        except Exception as ex:     # noqa: BLE001
+            ctx.observe("KLExpansion_default_normalizer", repr(ex))
     for w in (2, 1):
         g = [x for x in convs.get(("image/Image2D_F/r=2/c=3", "samples", "par", w), []) if x["trail"] == ["funvals", "vector"][:w]]
         if g:
